@@ -733,6 +733,39 @@ Proof.
   repeat split; apply Rabs_le; lra.
 Qed.
 
+(* the assembled conversion IS the CIE formula (116, 500, 200, 16, the argument order of the differences) applied to
+   the XYZ of the pixel relative to the code's white (1/1.052156925, 1, 1/0.918357670), up to the binary64 rounding of
+   the constants inside f; and that white is the D65 white of the standards *)
+Lemma lab_matches_cie r g b : 0 <= r <= 1 -> 0 <= g <= 1 -> 0 <= b <= 1 ->
+  let X := lab_X (to_lin r) (to_lin g) (to_lin b) in
+  let Y := lab_Y (to_lin r) (to_lin g) (to_lin b) in
+  let Z := lab_Z (to_lin r) (to_lin g) (to_lin b) in
+  Rabs (lab_L r g b - cie_L X Y Z (1 / lab_wx) 1 (1 / lab_wz)) <= 1 / 10 ^ 12 /\
+  Rabs (lab_a r g b - cie_a X Y Z (1 / lab_wx) 1 (1 / lab_wz)) <= 1 / 10 ^ 12 /\
+  Rabs (lab_b r g b - cie_b X Y Z (1 / lab_wx) 1 (1 / lab_wz)) <= 1 / 10 ^ 12.
+Proof.
+  intros Hr Hg Hb.
+  pose proof (to_lin_range r Hr) as Lr. pose proof (to_lin_range g Hg) as Lg. pose proof (to_lin_range b Hb) as Lb.
+  cbv zeta. unfold lab_L, lab_a, lab_b, lab_fx, lab_fy, lab_fz, cie_L, cie_a, cie_b.
+  set (lr := to_lin r) in *. set (lg := to_lin g) in *. set (lb := to_lin b) in *.
+  replace (lab_X lr lg lb / (1 / lab_wx)) with (lab_X lr lg lb * lab_wx)
+    by (unfold Rdiv; rewrite Rmult_1_l, Rinv_inv; reflexivity).
+  replace (lab_Z lr lg lb / (1 / lab_wz)) with (lab_Z lr lg lb * lab_wz)
+    by (unfold Rdiv; rewrite Rmult_1_l, Rinv_inv; reflexivity).
+  replace (lab_Y lr lg lb / 1) with (lab_Y lr lg lb) by (unfold Rdiv; rewrite Rinv_1, Rmult_1_r; reflexivity).
+  set (NX := lab_X lr lg lb * lab_wx). set (NY := lab_Y lr lg lb). set (NZ := lab_Z lr lg lb * lab_wz).
+  assert (RX : 0 <= NX <= 1.1) by (unfold NX, lab_X, mrow, lab_wx; lra).
+  assert (RY : 0 <= NY <= 1.1) by (unfold NY, lab_Y, mrow; lra).
+  assert (RZ : 0 <= NZ <= 1.1) by (unfold NZ, lab_Z, mrow, lab_wz; lra).
+  pose proof (lab_f_cie NX RX) as EX. pose proof (lab_f_cie NY RY) as EY. pose proof (lab_f_cie NZ RZ) as EZ.
+  apply Rabs_le_inv' in EX. apply Rabs_le_inv' in EY. apply Rabs_le_inv' in EZ.
+  repeat split; apply Rabs_le; lra.
+Qed.
+Lemma lab_white_is_d65 :
+  Rabs (1 / lab_wx - 0.95047) <= 5 / 10 ^ 5 /\ Rabs (1 / lab_wz - 1.08883) <= 1 / 10 ^ 4 /\
+  Rabs (lab_xn - 1 / lab_wx) <= 1 / 10 ^ 7 /\ Rabs (lab_zn - 1 / lab_wz) <= 1 / 10 ^ 7.
+Proof. unfold lab_wx, lab_wz, lab_xn, lab_zn. repeat split; interval. Qed.
+
 (* ================================================================== packaged statements for Props.v *)
 Lemma grey_zero_chroma c : 0 <= c <= 1 ->
   (ycc_y c c c = c /\ ycc_cr c c c = 1 / 2 /\ ycc_cb c c c = 1 / 2) /\
